@@ -218,6 +218,7 @@ class Net:
         self.spins = {}
         self.max_spins = 0
         self.taps = []                    # callables(src_idx, frame) observing the bus
+        self.rx_taps = []                 # callables(dst_idx, can_id, data) observing what a stack actually receives
         for s in world.stacks:
             self.attach(s)
 
@@ -255,6 +256,8 @@ class Net:
         q.append((arr, self.seq, can_id, list(data)))
 
     def _deliver(self, s, can_id, data):
+        for tap in self.rx_taps:
+            tap(s.idx, can_id, data)
         e = s.notify(can_id, data)
         if e:
             self.errors.append((s.idx, 'notify', e))
